@@ -308,7 +308,8 @@ def stepOp (st : St) (toks : List String) : St :=
         match st.pending, rest with
         | .decl, [r] =>
             -- every well-formed declaration must yield a variable
-            if st.dvals.isSome && r != "ok" then judgeFail st0 s!"well-formed declaration refused: {r}" else st0
+            let res : Except Err Unit := if r = "ok" then .ok () else .error (parseErr r)
+            if st.dvals.isSome && !declOk res then judgeFail st0 s!"well-formed declaration refused: {r}" else st0
         | .rt v, [w, back] =>
             match parseStrRes w, (if back = "~" then some (.error .other) else parseValRes back) with
             | some w', some b' =>
@@ -323,19 +324,18 @@ def stepOp (st : St) (toks : List String) : St :=
             | some x =>
                 let st1 := if (spell fo sp v) == some s || (spell fo sp v).isNone then st0
                            else corrFail st0 s!"spelling disagrees with Spec.spell for {fmtVal v}"
-                if spellOk fo ty sp v s x && inOk x then st1 else judgeFail st1 s!"spelling of {fmtVal v} read as {r}"
+                if spellJ fo ty sp v s x then st1 else judgeFail st1 s!"spelling of {fmtVal v} read as {r}"
             | none => judgeFail st0 s!"unparsable spell result {r}"
         | .validate v, [r] =>
             match st.dvals with
             | some d =>
-                if !st.strict || validateOk fo ty needTz d v (parseSetRes r) then st0
+                if validateJ fo st.strict ty needTz d v (parseSetRes r) then st0
                 else judgeFail st0 s!"validate {fmtVal v} -> {r}"
             | none => st0
         | .set v, [r, after, _] =>
             match parseVal after, st.dvals with
             | some a, some d =>
-                let ok := if st.strict then setOk fo ty needTz d v (parseSetRes r) st.implValue a
-                          else setKeeps v (parseSetRes r) st.implValue a
+                let ok := setJ fo st.strict ty needTz d v (parseSetRes r) st.implValue a
                 let st1 := { st0 with implValue := a }
                 if ok then st1 else judgeFail st1 s!"set {fmtVal v} -> {r}, value {fmtVal st.implValue} -> {after}"
             | some a, none => { st0 with implValue := a }
@@ -343,10 +343,7 @@ def stepOp (st : St) (toks : List String) : St :=
         | .setupnp, [r, after, _, conv] =>
             match parseVal after, parseValRes conv, st.dvals with
             | some a, some cv, some d =>
-                let ok := if st.strict then setUpnpOk fo ty needTz d cv (parseSetRes r) st.implValue a
-                          else (match cv with
-                                | .ok v => setKeeps v (parseSetRes r) st.implValue a
-                                | .error _ => a == st.implValue || a == .none)
+                let ok := setUpnpJ fo st.strict ty needTz d cv (parseSetRes r) st.implValue a
                 let st1 := { st0 with implValue := a }
                 if ok then st1 else judgeFail st1 s!"upnp_value set -> {r}, value {fmtVal st.implValue} -> {after} (converted {conv})"
             | some a, _, _ => { st0 with implValue := a }
